@@ -26,7 +26,7 @@ use yash_syntax::source::Location;
 pub const INFO: PropInfo = PropInfo {
     id: "C17",
     level: "exploration",
-    rule: "cases = (alias table, command line). Tables: every assignment of {undefined} + 22 value shapes (another name, name+blank, two names, if ! { then, ; | && (, >f, v=1, 'N', \\N, empty, `probe x`, `probe y `, own name, own name + argument, text with an inner / a leading newline, name after newline) to 3 names (quick) / 4 names (thorough), exhaustive; plus tables with global aliases (API level only). Lines: 44 (quick) / 120 (thorough) templates placing the names in command, argument, post-assignment, post-redirection, post-keyword, post-operator, for/case, quoted and line-continuation positions. Oracle: own textual substitution model, then printed parse(L,T) == printed parse(L',{}) or both syntax errors; look-up counter for termination; every substituting case parsed a second time with a glossary that returns a newly allocated equal definition on each look-up (same result required: the recursion rule is by name); driver runtime: an alias whose two-line value re-defines / removes itself or another alias on its first line and uses a name on its second, executed by the complete shell, trace compared with the by-hand reading; ~10% of the substituting cases also executed on the simulated OS (trace, stdout, status compared). Non-trivial = at least one substitution happens in the line AND (the recursion guard stops a further substitution, or a blank-ending chain of length >= 2 is followed, or a reserved word / operator recognised by the parser comes out of replacement text); distinct by (table, line) index.",
+    rule: "cases = (alias table, command line). Tables: every assignment of {undefined} + 23 value shapes (another name, name+blank, two names, if ! { then, ; | && (, >f, v=1, 'N', \\N, empty, `probe x`, `probe y `, own name, own name + argument, text with an inner / a leading newline, name after newline) to 3 names (quick) / 4 names (thorough), exhaustive; plus tables with global aliases (API level only). Lines: 44 (quick) / 120 (thorough) templates placing the names in command, argument, post-assignment, post-redirection, post-keyword, post-operator, for/case, quoted and line-continuation positions. Oracle: own textual substitution model, then printed parse(L,T) == printed parse(L',{}) or both syntax errors; look-up counter for termination; every substituting case parsed a second time with a glossary that returns a newly allocated equal definition on each look-up (same result required: the recursion rule is by name); driver runtime: an alias whose two-line value re-defines / removes itself or another alias on its first line and uses a name on its second, executed by the complete shell, trace compared with the by-hand reading; ~10% of the substituting cases also executed on the simulated OS (trace, stdout, status compared). Non-trivial = at least one substitution happens in the line AND (the recursion guard stops a further substitution, or a blank-ending chain of length >= 2 is followed, or a reserved word / operator recognised by the parser comes out of replacement text); distinct by (table, line) index.",
     assumptions: &[
         "POSIX.1-2024 XCU 2.3.1: a TOKEN is replaced iff it is an unquoted literal alias name that did not result from substitution of the same alias and could be the command name of a simple command, or follows an alias value ending in a blank (next TOKEN rule); the manual docs/src/language/aliases.md agrees",
         "global aliases are not documented in the manual (section commented out, no `alias -g`); they are checked at parser-API level only, with the rule 'any word token', and never in for/case headers",
@@ -838,9 +838,11 @@ pub static GLOBAL: Driver<AliasCase> = Driver::new("C17", "global", check_alias)
 const NAMES: [&str; 4] = ["a", "b", "c", "d"];
 
 /// Value shapes; `S` = the alias' own name, `N` = the next name (cyclically), `P` = the previous.
-const VALUES: [&str; 22] = [
+const VALUES: [&str; 23] = [
     "N", "N ", "N P", "if", "!", "{", "then", ";", "|", "&&", "(", ">f", "v=1", "'N'", "\\N", "", "probe x", "probe y ", "S",
     "S x", "probe n\nN", "\nprobe m",
+    // blank-ending value with multi-byte characters (positions counted in characters vs bytes)
+    "probe \u{e9}\u{3053} ",
 ];
 
 /// Value shapes for the tables with global aliases.
